@@ -178,3 +178,67 @@ Definition satisfied_b (x : input) : bool := sat_b (wr x) (wa x) (wor x) (rs x) 
 
 Definition spec_b (x : input) (identity : bool) : bool :=
   implb identity (satisfied_b x) && implb (satisfied_b x && negb (is_paos (binding x))) identity.
+
+(* ---- round 5: a Response with several assertions ------------------------------------------------------
+   "every signature present on the Response or on the assertion that is used verifies": a Response may carry
+   several assertions, plain and encrypted, in any order (SAML core 3.2.2), and the receiver builds the identity
+   out of ALL of them (the attributes of every assertion are merged, the subject is taken from one of them): every
+   assertion is used.  So: every signature present on the Response or on ANY of its assertions verifies; where
+   signed assertions are demanded, EVERY assertion carries a valid signature; the either-or option is satisfied
+   by a valid signature on the Response or on every assertion.  A Response without any assertion yields no
+   identity.  Acceptance is owed only within the documented limitation of the receiver (exactly one plain or
+   exactly one encrypted assertion - saml2int), when every assertion names its issuer, the Response names none
+   or the one of every assertion, and the signatures have the profile form. *)
+Definition x_state (c : config) (x : asn) : sigst := state c (x_who x) (x_sig x).
+Definition rr_state (c : config) (mm : mmsg) : sigst := state c (mm_rwho mm) (mm_rs mm).
+
+Definition satisfied_mm (c : config) (mm : mmsg) : Prop :=
+  ok (rr_state c mm) /\ Forall (fun x => ok (x_state c x)) (mm_asl mm)
+  /\ (wr_c c = true -> rr_state c mm = Valid)
+  /\ (wa_c c = true -> Forall (fun x => x_state c x = Valid) (mm_asl mm))
+  /\ (wor_c c = true -> rr_state c mm = Valid \/ Forall (fun x => x_state c x = Valid) (mm_asl mm)).
+
+Definition otherwise_valid_mm (mm : mmsg) : Prop :=
+  mm_bind mm <> PAOS
+  /\ (length (filter (fun x => negb (x_enc x)) (mm_asl mm)) = 1 \/ length (filter x_enc (mm_asl mm)) = 1)
+  /\ Forall (fun x => x_who x <> WNone /\ (mm_rwho mm = WNone \/ mm_rwho mm = x_who x) /\ sig_in_profile (x_sig x) = true) (mm_asl mm)
+  /\ sig_in_profile (mm_rs mm) = true.
+
+Definition spec_mm (c : config) (mm : mmsg) (identity : bool) : Prop :=
+  (identity = true -> mm_asl mm <> [] /\ satisfied_mm c mm) /\ (satisfied_mm c mm -> otherwise_valid_mm mm -> identity = true).
+
+Definition satisfied_mm_b (c : config) (mm : mmsg) : bool :=
+  ok_b (rr_state c mm) && forallb (fun x => ok_b (x_state c x)) (mm_asl mm)
+  && implb (wr_c c) (valid_b (rr_state c mm))
+  && implb (wa_c c) (forallb (fun x => valid_b (x_state c x)) (mm_asl mm))
+  && implb (wor_c c) (valid_b (rr_state c mm) || forallb (fun x => valid_b (x_state c x)) (mm_asl mm)).
+
+Definition otherwise_valid_mm_b (mm : mmsg) : bool :=
+  negb (is_paos (mm_bind mm))
+  && (Nat.eqb (length (filter (fun x => negb (x_enc x)) (mm_asl mm))) 1 || Nat.eqb (length (filter x_enc (mm_asl mm))) 1)
+  && forallb (fun x => has_issuer (x_who x) && (negb (has_issuer (mm_rwho mm)) || who_eqb (mm_rwho mm) (x_who x)) && sig_in_profile (x_sig x)) (mm_asl mm)
+  && sig_in_profile (mm_rs mm).
+
+Definition nonempty {A} (l : list A) : bool := match l with [] => false | _ => true end.
+
+Definition spec_mm_b (c : config) (mm : mmsg) (identity : bool) : bool :=
+  implb identity (nonempty (mm_asl mm) && satisfied_mm_b c mm) && implb (satisfied_mm_b c mm && otherwise_valid_mm_b mm) identity.
+
+
+Definition spec_seq_mm (c : config) (ms : list mmsg) (ids : list bool) : Prop := Forall2 (spec_mm c) ms ids.
+Fixpoint spec_seq_mm_b (c : config) (ms : list mmsg) (ids : list bool) : bool :=
+  match ms, ids with
+  | [], [] => true
+  | m :: ms', i :: ids' => spec_mm_b c m i && spec_seq_mm_b c ms' ids'
+  | _, _ => false
+  end.
+Definition spec_client_mm (k : client) (ms : list mmsg) (ids : list bool) : Prop :=
+  match meant_config k with
+  | Some c => spec_seq_mm c ms ids
+  | None => length ids = length ms /\ Forall (fun i => i = false) ids
+  end.
+Definition spec_client_mm_b (k : client) (ms : list mmsg) (ids : list bool) : bool :=
+  match meant_config k with
+  | Some c => spec_seq_mm_b c ms ids
+  | None => Nat.eqb (length ids) (length ms) && forallb negb ids
+  end.
